@@ -324,12 +324,35 @@ theorem smulwbLaneAvx2_eq (a b : Int) : wrap32 (smulwbLaneAvx2 a b) = smulwb a b
   show wrap32 (P * 65536 % 18446744073709551616 / 4294967296) = wrap32 (P / 65536)
   unfold wrap32; omega
 
-/-- the rounding shift agrees with silk_RSHIFT_ROUND exactly while `a + 2^(bits-1)` does not wrap (shown for the shift
-    counts the kernel uses on vectors, 4 and 10); at the top of the range it does NOT (see the example in OpusProps/C15). -/
-theorem sraiRoundLane_eq (a : Int) (ha : I32 a) :
-    (a < 2147483648 - 8 → sraiRoundLane a 4 = rshiftRound a 4) ∧
-    (a < 2147483648 - 512 → sraiRoundLane a 10 = rshiftRound a 10) := by
-  unfold sraiRoundLane rshiftRound wrap32 I32 at *
+/-- the rounding shift is silk_RSHIFT_ROUND for every 32-bit value and every shift count 2..30: after the first shift the
+    value is below 2^30 in magnitude, so the `+1` cannot wrap. -/
+theorem sraiRoundLane_eq (a : Int) (ha : I32 a) (bits : Nat) (hb : 2 ≤ bits) :
+    sraiRoundLane a bits = rshiftRound a bits := by
+  unfold sraiRoundLane rshiftRound
+  have h1 : ¬ (bits = 1) := by omega
+  simp only [h1, if_false]
+  obtain ⟨k, rfl⟩ : ∃ k, bits = k + 2 := ⟨bits - 2, by omega⟩
+  have e : k + 2 - 1 = k + 1 := by omega
+  rw [e]
+  have hm : (2 : Int) ≤ 2 ^ (k + 1) := by
+    have h0 : (0 : Int) < 2 ^ k := by positivity
+    have hpow : (2 : Int) ^ (k + 1) = 2 ^ k * 2 := pow_succ 2 k
+    omega
+  have hmpos : (0 : Int) < 2 ^ (k + 1) := by omega
+  have l1 := Int.ediv_mul_le a (ne_of_gt hmpos)
+  have l2 := Int.lt_ediv_add_one_mul_self a hmpos
+  unfold I32 at ha
+  generalize a / 2 ^ (k + 1) = q at l1 l2
+  generalize (2 : Int) ^ (k + 1) = m at hm hmpos l1 l2
+  have q1 : q < 1073741824 := by nlinarith
+  have q2 : -1073741825 < q := by nlinarith
+  unfold wrap32; omega
+
+/-- the form before b1d58384 agreed only below its wrap point (shift counts 4 and 10). -/
+theorem sraiRoundLaneOld_eq (a : Int) (ha : I32 a) :
+    (a < 2147483648 - 8 → sraiRoundLaneOld a 4 = rshiftRound a 4) ∧
+    (a < 2147483648 - 512 → sraiRoundLaneOld a 10 = rshiftRound a 10) := by
+  unfold sraiRoundLaneOld rshiftRound wrap32 I32 at *
   have n4 : ((4 : Nat) = 1) = False := by decide
   have n10 : ((10 : Nat) = 1) = False := by decide
   constructor
